@@ -262,6 +262,7 @@ def run(tier, seed):
                 run.fail(case, "correspondence: reading through the logical schema differs from the model", kind="correspondence")
     positions_and_reader_annotations(run, cases, results, seed, tier)
     shared_zone_family(run)
+    process_zone_family(run)
     decimal_beside_floating_family(run)
     return run.finish()
 
@@ -323,6 +324,67 @@ def shared_zone_family(run):
                     case["stored"], case["expected"] = got, want
                     run.fail(case, "an aware datetime is not stored as its distance from the UTC epoch when the values before it carry the "
                                    "same tzinfo object with another offset", kind="oracle")
+
+
+def process_zone_family(run):
+    """the process's own time zone (TZ) is not UTC: an aware datetime — whatever its offset, zero included — is stored as ITS
+    instant; the process zone plays no part"""
+    import io
+    import os
+    import time
+    import fastavro
+    if not hasattr(time, "tzset"):
+        return
+    epoch = datetime.datetime(1970, 1, 1, tzinfo=datetime.timezone.utc)
+    saved = os.environ.get("TZ")
+    try:
+        for tzname in ("America/New_York", "Asia/Kolkata", "XYZ-9:30", "UTC"):
+            os.environ["TZ"] = tzname
+            time.tzset()
+            zones = [("utc", datetime.timezone.utc), ("zero-offset-timezone", datetime.timezone(datetime.timedelta(0), "Z")),
+                     ("seasonal-zone-at-zero", _SeasonalZone(0)), ("plus-one-minute", datetime.timezone(datetime.timedelta(minutes=1))),
+                     ("minus-five-hours", datetime.timezone(datetime.timedelta(hours=-5)))]
+            for zlabel, zone in zones:
+                stamps = [datetime.datetime(2021, 1, 15, 12, 0, 0, 250000, tzinfo=zone), datetime.datetime(2021, 7, 15, 12, 0, 0, 999000, tzinfo=zone),
+                          datetime.datetime(1969, 12, 31, 23, 59, 59, tzinfo=zone), datetime.datetime(1970, 1, 1, tzinfo=zone),
+                          datetime.datetime(2021, 3, 14, 2, 30, tzinfo=zone), datetime.datetime(2021, 11, 7, 1, 30, tzinfo=zone)]
+                for unit, div in (("timestamp-millis", 1000), ("timestamp-micros", 1)):
+                    t = {"type": "long", "logicalType": unit}
+                    want = [((x - epoch) // datetime.timedelta(microseconds=1)) // div for x in stamps]
+                    case = {"logical": unit, "process_TZ": tzname, "tzinfo": zlabel, "values": [x.isoformat() for x in stamps],
+                            "tags": ["process-zone", zlabel]}
+                    run.count(case, True, ["process-zone:" + zlabel])
+                    try:
+                        got = []
+                        for x in stamps:
+                            fo = io.BytesIO()
+                            fastavro.schemaless_writer(fo, t, x)
+                            got.append(fastavro.schemaless_reader(io.BytesIO(fo.getvalue()), "long"))
+                        back = [fastavro.schemaless_reader(io.BytesIO(_w(t, x)), t) for x in stamps]
+                    except Exception as e:  # noqa
+                        run.fail(case, "writing an aware datetime raised %r under a non-UTC process time zone" % (e,), kind="oracle")
+                        continue
+                    if got != want:
+                        case["stored"], case["expected"] = got, want
+                        run.fail(case, "an aware datetime is not stored as its distance from the UTC epoch when the process time zone is not UTC",
+                                 kind="oracle")
+                    elif [((b - epoch) // datetime.timedelta(microseconds=1)) // div for b in back] != want:
+                        case["read_back"] = [b.isoformat() for b in back]
+                        run.fail(case, "an aware datetime does not read back as the same instant when the process time zone is not UTC", kind="oracle")
+    finally:
+        if saved is None:
+            os.environ.pop("TZ", None)
+        else:
+            os.environ["TZ"] = saved
+        time.tzset()
+
+
+def _w(t, x):
+    import io
+    import fastavro
+    fo = io.BytesIO()
+    fastavro.schemaless_writer(fo, t, x)
+    return fo.getvalue()
 
 
 def decimal_beside_floating_family(run):
